@@ -33,6 +33,7 @@ type HarnessOpt struct {
 	ThoroughOnly bool
 	UnwindIsViolation bool
 	Merge []string
+	IfConv bool
 }
 
 type Property struct {
@@ -168,6 +169,7 @@ func (r *Runner) optFor(name string) HarnessOpt {
 			o.ThoroughOnly = c.ThoroughOnly
 			o.UnwindIsViolation = c.UnwindIsViolation
 			o.Merge = c.Merge
+			o.IfConv = c.IfConv
 		}
 	}
 	return o
@@ -236,6 +238,7 @@ func (r *Runner) runHarness(rel string, fn *ssa.Function, workers int) *HarnessR
 		}
 		x := &ssaexec.Exec{Prog: r.L.Prog, C: c, S: s}
 		x.Opt = ssaexec.Options{MaxUnwind: o.MaxUnwind, MaxSteps: o.MaxSteps, InitPkgs: initPkgs, MapOrders: o.MapOrders, Workers: o.Workers, Tier: tier}
+		x.Opt.IfConv = o.IfConv
 		if len(o.Merge) > 0 {
 			x.Opt.Merge = map[string]bool{}
 			for _, m := range o.Merge {
@@ -247,7 +250,7 @@ func (r *Runner) runHarness(rel string, fn *ssa.Function, workers int) *HarnessR
 		}
 		if o.Mode == "G" {
 			x.LiftMode = "G"
-			x.Lifter = func(t *smt.Term) (*smt.Term, error) { return lift.NewG(x.C).Lift(t) }
+			x.NewLifter = func(c *smt.Ctx) ssaexec.Lifter { return lift.NewG(c) }
 		}
 		return x, nil
 	}
@@ -378,6 +381,23 @@ func (r *Runner) Run() int {
 				exit = 1
 			}
 			outs = append(outs, fo)
+		}
+	}
+	// lemmas used by harnesses must be proved by a harness of this run
+	for _, hr := range results {
+		if hr.Stats == nil {
+			continue
+		}
+		for l := range hr.Stats.Lemmas {
+			ok := false
+			for _, other := range results {
+				if other.Name == l && other.Err == nil && len(other.Report.Findings) == 0 && other.Report.Reached["end"] > 0 && !other.Report.Truncated {
+					ok = true
+				}
+			}
+			if !ok && r.Only == "" {
+				broken = append(broken, fmt.Sprintf("%s uses lemma %s which is not proved in this run", hr.Name, l))
+			}
 		}
 	}
 	for _, e := range r.Extras {
@@ -549,6 +569,16 @@ func (r *Runner) writeEvidence(results []*HarnessResult, outs []FindingOut, vali
 			}
 			for k := range hr.Stats.Notes {
 				notes[k] = true
+			}
+			for k := range hr.Stats.Lemmas {
+				notes["lemma used: "+k] = true
+			}
+			for k, v := range hr.Stats.Merged {
+				notes[fmt.Sprintf("merged pure callee %s", k)] = true
+				_ = v
+			}
+			if hr.Stats.Poisoned > 0 {
+				notes["G: some branch conditions left the exact domain and were over-approximated"] = true
 			}
 		}
 		nontrivial += hr.Report.Ends["ok"]
